@@ -13,7 +13,7 @@ def run_history(plan, res, backends=None, stop_on_violation=True):
   """Executes plan['ops'] on one backend against model + monitors."""
   cfg = plan['cfg']
   backend = cfg['backend']
-  clk = simclock.SimClock(epoch=cfg.get('epoch', simclock.EPOCH))
+  clk = simclock.SimClock(epoch=cfg.get('epoch', simclock.EPOCH), tz_offset=3600.0 * cfg.get('tz_h', 0))
   ent = simclock.Entropy(plan.get('entropy', 0))
   store = 'ram' if backend == 'ram' else 'sql'
   with simclock.installed(clk, ent):
@@ -49,6 +49,18 @@ def run_history(plan, res, backends=None, stop_on_violation=True):
         else:
           c = O.resolve(op, O.View(world.sv))
         es_before = world.calls.get('EarlyStop', 0)
+        es_must = None  # True: this check must reach the algorithm; False: must be answered from the stored decision
+        if kind == 'CheckES':
+          try:
+            owner, sid_ = c['study'].split('/')[1], c['study'].split('/')[3]
+            old = world.sv.datastore.get_early_stopping_operation(
+                f'owners/{owner}/operations/earlystopping/{sid_}/{c["trial"]}')
+            age = clk.now - (old.completion_time.seconds + old.completion_time.nanos / 1e9)
+            recycle = cfg.get('recycle_s', 60.0)
+            if int(old.status) == 2:  # DONE: the stored decision stands for one recycle period
+              es_must = True if age > recycle + 1.0 else (False if 0 <= age < recycle - 1.0 else None)
+          except Exception:  # pylint: disable=broad-except
+            es_must = None
         raw = O.execute(world.sv, c, cfg)
         out = O.outcome_norm(kind, raw)
         if out[0] == 'ok' and out[1] == 'op' and out[2]['name'] not in world.op_names:
@@ -67,6 +79,12 @@ def run_history(plan, res, backends=None, stop_on_violation=True):
           srcs = out[2]['trials']
           if any(t['id'] for t in srcs):
             res.bump('probe.suggest-served')
+        if kind == 'CheckES' and out[0] == 'ok' and es_must is not None:
+          reached = world.calls.get('EarlyStop', 0) > es_before
+          if es_must and not reached:
+            mism.append(('CheckES.stale-decision-not-recomputed', f'the stored decision is {age:.0f} s old (recycle period {recycle:.0f} s) but the algorithm was not asked again'))
+          elif not es_must and reached:
+            mism.append(('CheckES.recent-decision-recomputed', f'the stored decision is only {age:.0f} s old (recycle period {recycle:.0f} s) but the algorithm was asked again'))
         if kind == 'CheckES' and out[0] == 'ok':
           res.bump('probe.early-stop-answered')
           key = (c['study'], c['trial'])
@@ -135,6 +153,7 @@ class C01(runner.Check):
         'recycle_s': rng.choice([0.1, 60.0, 60.0]), 'epoch': simclock.EPOCH + rng.randrange(10**6),
     }
     cfg['id_rot'] = rng.randrange(len(O.STUDY_IDS))  # which adversarial id the main study carries
+    cfg['tz_h'] = rng.choice([0, 0, 9, -8, 5.5])  # the host's local time zone (hours east of UTC)
     n = rng.randrange(5, 31 if tier == 'quick' else 61)
     profile = {'n_studies': rng.choice([1, 2, 3]), 'n_owners': rng.choice([1, 2]),
                'workers': rng.choice([1, 2, 3]), 'p_direct': rng.choice([0.1, 0.3])}
